@@ -491,6 +491,8 @@ class NP:
         term = TH.colscale2(lt, rt)
       elif len(ld) == 2 and len(rd) == 2 and self._eq(cx, ld[0], rd[0]) and self._eq(cx, rd[1], z3.IntVal(1)):
         term = TH.rowscale(lt, rt)
+      elif len(ld) == 2 and len(rd) == 2 and self._eq(cx, ld[0], rd[0]) and self._eq(cx, ld[1], z3.IntVal(1)):
+        term = TH.rowscale(rt, lt)                          # (n, 1) * (n, d): the same row scaling, operands the other way round
     if term is None and isinstance(op, ast.Div) and lt is not None and rt is not None:
       if len(ld) == 2 and len(rd) == 1 and self._eq(cx, ld[1], rd[0]):
         term = TH.coldiv(lt, rt)
